@@ -2,4 +2,4 @@ From Capy Require Import Common.Util Model.Mutability Spec.MutSpec.
 Require Extraction.
 Require Import ExtrOcamlBasic.
 Extraction Language OCaml.
-Separate Extraction nat positive N Z assign_accepted ref_mut_accepted get_mutability place suspect typed.
+Separate Extraction nat positive N Z assign_accepted ref_mut_accepted get_mutability place suspect typed multilevel.
